@@ -8,7 +8,8 @@ TECHNIQUE = ('static analysis: call-graph closure (who may reach job '
              'preparation), provenance of the task set handed to submission, '
              'guard dominance at the queueing sites, conjunct check of the '
              'readiness predicate, who-may-satisfy allow-lists for natural and '
-             'forced prerequisite satisfaction')
+             'forced prerequisite satisfaction, who-may-call of the on-sequence '
+             'step and shape of the next-parentless-point selection')
 
 CLAUSES = (
     'Decided: job preparation is reachable only through the submission chain '
@@ -23,7 +24,10 @@ CLAUSES = (
     'not held, waiting, prerequisites, external triggers and xtriggers '
     'satisfied; natural prerequisite satisfaction uses the completed output '
     'of the parent (or the recorded absolute outputs); forced satisfaction is '
-    'reachable only from commands. Not decided: equality of the submitted set '
+    'reachable only from commands; the next parentless instance is the '
+    'earliest, over every recurrence of the task, of get_next_point(point) '
+    '(the off-sequence-safe step; get_next_point_on_sequence is confined to '
+    'the cycling classes and the graph walk). Not decided: equality of the submitted set '
     'with the spawn-on-demand closure over all graphs and outcomes.')
 
 S = 'scheduler'
@@ -197,7 +201,9 @@ def check(c):
         f = c.owner(n)
         fq = f.fq if f else ''
         if fq == f'{TP}:TaskPool.spawn_on_output':
-            ok = norm(n.args[0]) == \
+            from rules._shared import resolved
+            # (the list may be built once in front of the loop over tasks)
+            ok = bool(n.args) and norm(resolved(c, f, n.args[0], n)) == \
                 '[itask.tokens.duplicate(task_sel=output)]'
             c.ob('C01.satisfy', c.key(n, f) + ' the completed output of the '
                  'parent', ok, c.where(n, f), '')
@@ -267,6 +273,69 @@ def check(c):
                          '= ...]', ok, c.where(n, f), '')
     c.floor('C01.forced-satisfy', 'direct prerequisite item stores seen',
             n_set, 3)
+    _next_instance(c)
+
+
+def _next_instance(c):
+    """Every parentless instance the graph requires gets spawned: the next
+    parentless point is the earliest, over *every* recurrence of the task, of
+    the recurrence's next point after the current one -- taken with the API
+    that accepts a point that is not on that recurrence (the current point is
+    only known to lie on one of them)."""
+    R = 'C01.next-instance'
+    # get_next_point_on_sequence presupposes an on-sequence point: only the
+    # cycling classes themselves and the graph walk of the config (which
+    # iterates one sequence from its own first point) may use it
+    for n in c.calls(None, 'get_next_point_on_sequence'):
+        f = c.owner(n)
+        fq = f.fq if f else '<module>'
+        ok = fq.startswith('cycling.') or fq.startswith('cycling:') or \
+            fq == 'config:WorkflowConfig.get_graph_raw'
+        c.ob(R, c.key(n, f) + ' [get_next_point_on_sequence]', ok,
+             c.where(n, f), '' if ok else 'the on-sequence step is used on a '
+             'point that need not lie on this recurrence: instances on the '
+             'other recurrences of the task are skipped')
+    c.floor(R, 'calls of get_next_point_on_sequence seen', len(c.calls(
+        None, 'get_next_point_on_sequence')), 3)
+    td = c.func('taskdef', 'TaskDef.next_point_parentless')
+    loops = [n for n in ast.walk(td.node) if isinstance(
+        n, (ast.For, ast.comprehension)) and norm(n.iter) == 'self.sequences']
+    c.exactly(R, f'{td.fq} :: loop over self.sequences', len(loops), 1)
+    nxt = c.find(td, '_s.get_next_point(point)')
+    c.floor(R, f'{td.fq} :: seq.get_next_point(point)', len(nxt), 1)
+    for n in nxt:
+        c.guard(R, n, ['!(point is None)'], td)
+    first = c.find(td, '_s.get_first_point(cutoff)')
+    c.floor(R, f'{td.fq} :: seq.get_first_point(cutoff)', len(first), 1)
+    for n in first:
+        c.guard(R, n, ['point is None'], td)
+    adds = c.find(td, 'adjusted.append(next_point)')
+    c.floor(R, f'{td.fq} :: candidates collected', len(adds), 1)
+    for n in adds:
+        c.guard_only(R, n, ['next_point',
+                            'self.is_parentless(next_point, cutoff)'], td)
+    rets = [r for r in ast.walk(td.node) if isinstance(r, ast.Return)
+            and r.value is not None and norm(r.value) != 'None']
+    c.floor(R, f'{td.fq} :: valued return', len(rets), 1)
+    for r in rets:
+        c.ob(R, c.key(r, td) + ' is the earliest candidate',
+             norm(r.value) == 'min(adjusted)', c.where(r, td), norm(r.value))
+    # sequential tasks: the next-instance child likewise
+    gc = c.func('taskdef', 'generate_graph_children')
+    seqn = [n for n in c.find(gc, '_s.get_next_point(point)')]
+    c.floor(R, f'{gc.fq} :: seq.get_next_point(point)', len(seqn), 1)
+    for n in seqn:
+        lp = n
+        while id(lp) in c.idx.parent and not isinstance(
+                lp, (ast.For, ast.comprehension)):
+            lp = c.idx.parent[id(lp)]
+        c.ob(R, c.key(n, gc) + ' over every recurrence of the task',
+             isinstance(lp, (ast.For, ast.comprehension))
+             and norm(lp.iter) == 'tdef.sequences', c.where(n, gc), '')
+    # the auto-spawn of the next parentless instance uses it
+    sp = c.func(TP, 'TaskPool.spawn_next_parentless')
+    c.floor(R, f'{sp.fq} :: next_point_parentless', len(c.calls(
+        sp, 'next_point_parentless')), 1)
 
 
 def _completed_loop(c, n):
@@ -290,6 +359,26 @@ def _completed_loop(c, n):
 
 
 VARIANTS = [
+    ('next-on-sequence-step', 'cylc/flow/taskdef.py',
+     '                else seq.get_next_point(point)',
+     '                else seq.get_next_point_on_sequence(point)',
+     'C01.next-instance'),
+    ('next-latest-candidate', 'cylc/flow/taskdef.py',
+     '''        if adjusted:
+            return min(adjusted)
+        return None
+
+    def is_parentless''', '''        if adjusted:
+            return max(adjusted)
+        return None
+
+    def is_parentless''', 'C01.next-instance'),
+    ('next-first-recurrence-only', 'cylc/flow/taskdef.py',
+     '''        adjusted = []
+        for seq in self.sequences:
+            next_point = (''', '''        adjusted = []
+        for seq in self.sequences[:1]:
+            next_point = (''', 'C01.next-instance'),
     ('queue-unready', 'cylc/flow/task_pool.py',
      '''            and not itask.is_manual_submit
             and itask.is_ready_to_run()
